@@ -158,6 +158,17 @@ def corpus():
          [["ws", "N"], ["noanswer", "N"], J("N"), S] + R("N", AV) + [["sleep", 300], S,
           ["ws", "Q"], J("Q"), S] + R("Q", AV) + [["publish", "Q", "s3", "camera", 1, 0], ["waittracks", "s3", 1, 6000], S, ["closews", "A"], ["sleep", 200], S, S]
     out.append({"name": "requests-late-joiner-per-stream-abort-noanswer", "steps": st})
+    # an explicitly empty list for a label means "nothing of that label", whatever the default says
+    st = [["ws", "P"], J("P"), S, ["ws", "A"], J("A"), S] + R("A", {"": ["audio", "video"], "screenshare": []}) + [["ws", "B"], J("B"), S] + R("B", {"": [], "camera": ["audio"]}) + \
+         [["publish", "P", "s1", "camera", 1, 1], ["waittracks", "s1", 2, 6000], S, ["publish", "P", "s2", "screenshare", 1, 1], ["waittracks", "s2", 2, 6000], S] + \
+         R("A", {"": [], "screenshare": ["video"]}) + R("B", {"camera": []}) + [S]
+    out.append({"name": "explicitly-empty-request-entries", "steps": st})
+    # replacements in quick succession (inside the server's 200 ms push delay) and a replacement that is closed at once
+    st = [["ws", "P"], J("P"), S, ["ws", "A"], J("A"), S] + R("A", AV) + [["ws", "B"], J("B"), S] + R("B", {"": ["audio"]}) + \
+         [["publish", "P", "s1", "camera", 1, 1], ["waittracks", "s1", 2, 6000], S,
+          ["publish", "P", "s2", "camera", 1, 1, "s1"], ["sleep", 40], ["publish", "P", "s3", "camera", 1, 1, "s2"], ["waittracks", "s3", 2, 6000], S,
+          ["publish", "P", "s4", "camera", 1, 0, "s3"], ["sleep", 40], ["unpublish", "P", "s4"], ["sleep", 500], S, S]
+    out.append({"name": "chained-replacements", "steps": st})
     return out
 
 
